@@ -184,7 +184,31 @@ if "C01" in props.PROPS:
     props.PROPS["C01"].post.append(coinswap_big)
     props.PROPS["C01"].big_replay = coinswap_big_replay
 
+def token_lemmas(check, pid, tier, seed, work):
+    """Unbounded lemma for the (repaired) LossLessSwap in exact rational arithmetic."""
+    sub = os.path.join(work, "lemmas")
+    os.makedirs(sub, exist_ok=True)
+    vlib.copy_specs(sub)
+    proved, notproved = [], []
+    try:
+        p = subprocess.run(["apalache-mc", "check", "--length=0", "--init=Init", "--next=Next", "--inv=Lemma_LossLess",
+                            f"--out-dir={os.path.join(sub, '_apalache-out')}", "TokenLemmas.tla"], cwd=sub,
+                           capture_output=True, text=True, timeout=240)
+        out = p.stdout + p.stderr
+    except subprocess.TimeoutExpired:
+        out = ""
+    if "The outcome is: NoError" in out:
+        proved.append("Lemma_LossLess")
+    elif "The outcome is: Error" in out:
+        raise Inconclusive("unbounded lemma Lemma_LossLess is refuted")
+    else:
+        notproved.append("Lemma_LossLess")
+    log(f"[lemmas] proved for all naturals (Apalache/Z3): {proved}; not proved: {notproved}")
+    return [], {"lemmas_proved": proved, "lemmas_not_proved": notproved}
+
+
 if "C10" in props.PROPS:
+    props.PROPS["C10"].post.append(token_lemmas)
     props.PROPS["C10"].post.append(token_big)
     props.PROPS["C10"].big_replay = token_big_replay
 
